@@ -1077,7 +1077,8 @@ def patterns(sc, run):
                 if t_x is not None and reads0 and won:
                     for i in range(reads0[0] + 1, t_x):
                         e = ev[i]
-                        if int(e[0]) != a and e[1] == "replacep":
+                        if int(e[0]) != a and e[1] == "replacep" and \
+                                any(o[0] == "pack" for o in sc["actors"][int(e[0])]):
                             pats.add("AN")
     return pats
 
